@@ -158,8 +158,10 @@ class SimTor(CtlPeer):
         changed = []
         for lk, vals in newvals.items():
             o = self.conf[lk]
+            before = o.values
             o.values = vals if vals else None
-            changed.append(o)
+            if o.values != before:
+                changed.append(o)       # Tor announces (CONF_CHANGED) only options whose value really changed
         if self.on_setconf_applied is not None:
             self.on_setconf_applied(items, changed)
         return ok()
